@@ -28,7 +28,17 @@ def c03_single_argument():
         return False
 
 
-CHECKS = {"c03-single-argument": c03_single_argument, "c02-array-equality": c02_array_equality}
+def c02_py_value_array():
+    from pysmt.solvers.eager import EagerModel
+    from pysmt.typing import PySMTType
+    try:
+        v = EagerModel({}).get_py_value(Array(INT, Int(0)))
+    except Exception:
+        return False
+    return isinstance(v, PySMTType)
+
+
+CHECKS = {"c02-py-value-array": c02_py_value_array, "c03-single-argument": c03_single_argument, "c02-array-equality": c02_array_equality}
 
 if __name__ == "__main__":
     sys.exit(1 if CHECKS[sys.argv[1]]() else 0)
